@@ -20,7 +20,7 @@ import (
 	"verif/vk"
 )
 
-const c18Rule = "configurations (daily start/end incl. overnight, equal and midnight times, all weekday subsets; weekly start/end day pairs; five zones incl. DST and a 30-minute-shift zone) built through the constructors and through session settings; instants on grids and rapid-drawn, pairs at offsets of minutes, hours, days, a week; instants within 2 s of a window edge and windows whose edge falls into a zone transition hour are excluded and counted; non-trivial = configuration with an overnight / weekly wrap-around window or a weekday subset, evaluated at an instant whose verdict differs from the plain start<=clock<=end test; distinct = distinct (configuration, instant[s])"
+const c18Rule = "configurations (daily start/end incl. overnight, equal and midnight times, all weekday subsets written in any order, with long or short day names and days named more than once; weekly start/end day pairs; five zones incl. DST and a 30-minute-shift zone) built through the constructors and through session settings; instants on grids and rapid-drawn, pairs at offsets of minutes, hours, days, a week; instants within 2 s of a window edge and windows whose edge falls into a zone transition hour are excluded and counted; non-trivial = configuration with an overnight / weekly wrap-around window or a weekday subset, evaluated at an instant whose verdict differs from the plain start<=clock<=end test; distinct = distinct (configuration, instant[s])"
 
 func c18() *stats.Collector {
 	c := stats.Get("C18")
@@ -28,10 +28,33 @@ func c18() *stats.Collector {
 	return c
 }
 
+// weekdaysText is the Weekdays setting: as drawn, or the plain long names in list order.
+func (c schedCfg) weekdaysText() string {
+	if len(c.dayTexts) > 0 {
+		return strings.Join(c.dayTexts, ",")
+	}
+	var l []string
+	for _, d := range c.days {
+		l = append(l, d.String())
+	}
+	return strings.Join(l, ",")
+}
+
+func (c schedCfg) dayNames() (string, string) {
+	if c.startDayText != "" {
+		return c.startDayText, c.endDayText
+	}
+	return c.startDay.String(), c.endDay.String()
+}
+
 type schedCfg struct {
 	weekly           bool
 	s, e             int // seconds since local midnight
 	days             []time.Weekday
+	dayTexts         []string // the Weekdays setting as the operator wrote it: long or short names, a day possibly named more than once
+	dayRepeated      bool
+	startDayText     string   // StartDay / EndDay as written (long or short name)
+	endDayText       string
 	startDay, endDay time.Weekday
 	loc              *time.Location
 }
@@ -217,14 +240,11 @@ func (c schedCfg) build(viaSettings bool) (*quickfix.VerifTimeRange, error) {
 		ss.Set(config.TimeZone, c.loc.String())
 	}
 	if c.weekly {
-		ss.Set(config.StartDay, c.startDay.String())
-		ss.Set(config.EndDay, c.endDay.String())
+		sd, ed := c.dayNames()
+		ss.Set(config.StartDay, sd)
+		ss.Set(config.EndDay, ed)
 	} else if len(c.days) > 0 {
-		var l []string
-		for _, d := range c.days {
-			l = append(l, d.String())
-		}
-		ss.Set(config.Weekdays, strings.Join(l, ","))
+		ss.Set(config.Weekdays, c.weekdaysText())
 	}
 	v, err := quickfix.VerifNewSession(quickfix.SessionID{BeginString: "FIX.4.2", SenderCompID: "S", TargetCompID: "T"},
 		quickfix.NewMemoryStoreFactory(), ss, quickfix.NewNullLogFactory(), nil, false)
@@ -355,6 +375,10 @@ func genCfg(t *rapid.T) schedCfg {
 		cfg.weekly = true
 		cfg.startDay = time.Weekday(rapid.IntRange(0, 6).Draw(t, "sd"))
 		cfg.endDay = time.Weekday(rapid.IntRange(0, 6).Draw(t, "ed"))
+		cfg.startDayText, cfg.endDayText = cfg.startDay.String(), cfg.endDay.String()
+		if rapid.Bool().Draw(t, "short-day-names") {
+			cfg.startDayText, cfg.endDayText = cfg.startDayText[:3], cfg.endDayText[:3]
+		}
 		return cfg
 	}
 	mask := rapid.OneOf(rapid.Just(0), rapid.IntRange(1, 127), rapid.SampledFrom([]int{0b0111110, 0b1000000, 0b0000001, 0b1000001})).Draw(t, "daymask")
@@ -366,6 +390,25 @@ func genCfg(t *rapid.T) schedCfg {
 	// the Weekdays setting is a list in whatever order the operator wrote it (Mon..Fri,Sun; Fri,Mon)
 	if len(cfg.days) > 1 && rapid.Bool().Draw(t, "weekday-list-order-as-written") {
 		cfg.days = rapid.Permutation(cfg.days).Draw(t, "weekday-list")
+	}
+	// ... with long or short day names, and a day possibly named twice (Mon,Monday / Tue,Mon,Tue):
+	// the days a list names are the days it names, however often
+	spell := func(d time.Weekday, label string) string {
+		if rapid.IntRange(0, 2).Draw(t, label) == 0 {
+			return d.String()[:3]
+		}
+		return d.String()
+	}
+	for _, d := range cfg.days {
+		cfg.dayTexts = append(cfg.dayTexts, spell(d, "short-name"))
+	}
+	if len(cfg.days) > 0 && rapid.IntRange(0, 3).Draw(t, "day-named-twice") == 0 {
+		for n := rapid.IntRange(1, 2).Draw(t, "repeats"); n > 0; n-- {
+			d := rapid.SampledFrom(cfg.days).Draw(t, "repeated-day")
+			at := rapid.IntRange(0, len(cfg.dayTexts)).Draw(t, "at")
+			cfg.dayTexts = append(cfg.dayTexts[:at], append([]string{spell(d, "short-name")}, cfg.dayTexts[at:]...)...)
+		}
+		cfg.dayRepeated = true
 	}
 	return cfg
 }
@@ -407,6 +450,9 @@ func c18Property(t *rapid.T) {
 	x := &c18ctx{t: t, cfg: cfg, tr: tr, via: map[bool]string{true: "settings", false: "constructor"}[via]}
 	c.Class("config:" + x.cfgClass())
 	c.Class("route:" + x.via)
+	if cfg.dayRepeated && !cfg.weekly {
+		c.Class("weekday-list-names-a-day-twice")
+	}
 	c.Class("zone:" + cfg.loc.String())
 	n := rapid.IntRange(5, 25).Draw(t, "n")
 	var pts []time.Time
